@@ -16,10 +16,10 @@ CHECKS = {
 
 CHECKS["C13"] = dict(
     engine="mirsym+kani",
-    technique="SMT (z3/cvc5; arrays, bit-vectors) over a symbolic execution of the real MIR of IPDiversityEnforcer::{can_accept,add,remove}_unified, analyze_ip/ipv4 from an arbitrary enforcer state (LruCaches as SMT arrays) and of the async DhtCoreEngine::{add_node, evict_node, handle_node_failure} (state machines polled in place) from an arbitrary engine state (enforcer, per-peer slot records, routing table, validator verdict); Kani/CBMC for extract_subnet_prefix",
+    technique="SMT (z3/cvc5; arrays, bit-vectors) over a symbolic execution of the real MIR of IPDiversityEnforcer::{can_accept,add,remove}_unified, analyze_ip/ipv4 from an arbitrary enforcer state (LruCaches as SMT arrays) and of the async DhtCoreEngine::{add_node, evict_node, handle_node_failure} (state machines polled in place) from an arbitrary engine state (enforcer, per-peer slot records, routing table, validator verdict) and of BootstrapManager::add_peer (arbitrary enforcer and rate-limiter verdict); Kani/CBMC for extract_subnet_prefix",
     category="proof",
-    text="Bounded proof by SMT. Enforcer: one add / remove / can-accept step from an ARBITRARY enforcer state (all caps symbolic, maps as arrays), arbitrary candidate; admit iff every level is below the cap in force, exact counter updates, failed admission consumes nothing, add-then-remove restores every counter; induction over histories via the re-proved representation invariant. Engine: one add_node / evict_node / handle_node_failure from an ARBITRARY engine state changes every counter by exactly the change of the peer's slot record, holders are listed, other peers' records untouched (so every counter equals the number of listed peers holding that key: removal by failure or eviction gives the slots back and an admission refused at a later gate consumes none); plus add-then-evict/fail scenarios. Counterexamples are replayed natively (JSON drivers inside the crate) and only reproduced ones are reported. A genuine defect found this way was fixed in /repo (known_findings.json).",
-    note="Trusts the library-call summaries listed in the evidence (LruCache/HashMap as arrays, address parsing as an uninterpreted function of the text, uncontended locks), the three solvers, single-task execution; fraction limited to the three presets, network size <= 2^32, caps >= 1; engine level: routing-table layout [3,7] with <= 2 peers per bucket, no geo provider for freshly analysed addresses. BootstrapManager::add_peer and join_network are outside.",
+    text="Bounded proof by SMT. Enforcer: one add / remove / can-accept step from an ARBITRARY enforcer state (all caps symbolic, maps as arrays), arbitrary candidate; admit iff every level is below the cap in force, exact counter updates, failed admission consumes nothing, add-then-remove restores every counter; induction over histories via the re-proved representation invariant. Engine: one add_node / evict_node / handle_node_failure from an ARBITRARY engine state changes every counter by exactly the change of the peer's slot record, holders are listed, other peers' records untouched (so every counter equals the number of listed peers holding that key: removal by failure or eviction gives the slots back and an admission refused at a later gate consumes none); plus add-then-evict/fail scenarios. Bootstrap cache: BootstrapManager::add_peer admits only past the join rate limiter and below every cap, counts the peer once, and a refusal consumes no diversity slot. Counterexamples are replayed natively (JSON drivers inside the crate) and only reproduced ones are reported. A genuine defect found this way was fixed in /repo (known_findings.json).",
+    note="Trusts the library-call summaries listed in the evidence (LruCache/HashMap as arrays, address parsing as an uninterpreted function of the text, uncontended locks), the three solvers, single-task execution; fraction limited to the three presets, network size <= 2^32, caps >= 1; engine level: routing-table layout [3,7] with <= 2 peers per bucket, no geo provider for freshly analysed addresses. join_network (bootstrap peers bypass the gates by design) and the ant-quic cache itself are outside.",
     design_ref="4/C13, 8.7",
 )
 CHECKS["C14"] = dict(
